@@ -61,7 +61,10 @@ def o_comb(kind: str, seq: str, npos: int, glob: bool, none_size: bool, size: in
             d[6] = None
         return tuple(d)
     k = n if none_size else size
-    got = getattr(a.copy(), kind)(None if none_size else size)
+    # the expansions are queries on one peptide object: every call below is made on the same object `a`, which must still be
+    # the peptide it was (a call that strips or reorders its receiver would poison all later expansions of that object)
+    before = D.dump(a)
+    got = getattr(a, kind)(None if none_size else size)
     res = _residues(seq, pos)
     want = [list(t) for t in _IT[kind](res, k)]
     if len(got) != _count(kind, n, k) or len(got) != len(want):
@@ -74,11 +77,22 @@ def o_comb(kind: str, seq: str, npos: int, glob: bool, none_size: bool, size: in
         if gd != wd:
             return _fail(why="result differs from the standard enumeration over modified residues", kind=kind, diff=D.diff(gd, wd))
     # the string-level wrapper: same results, each parses back to the same annotation
-    texts = getattr(CB, kind)(a.copy(), None if none_size else size)
+    texts = getattr(CB, kind)(a, None if none_size else size)
     if len(texts) != len(want):
         return _fail(why="wrapper: number of results")
     for t, w in zip(texts, want):
         back = parse(t)
         if D.norm_empty(D.dump(back)) != D.norm_empty(_exp(w)):
             return _fail(why="wrapper result does not parse to the expected annotation", text=t)
+    if D.dump(a) != before:
+        return _fail(why="the expanded peptide object is no longer the peptide it was", kind=kind, diff=D.diff(D.dump(a), before))
+    # a second expansion of the same object, and one of the other kinds, still see the whole peptide
+    again = getattr(a, kind)(None if none_size else size)
+    if [D.norm_empty(D.dump(g)) for g in again] != [D.norm_empty(D.dump(g)) for g in got]:
+        return _fail(why="a second expansion of the same peptide object differs from the first", kind=kind)
+    other = "product" if kind != "product" else "permutations"
+    o1 = getattr(a, other)(1)
+    wo = [list(t) for t in _IT[other](res, 1)]
+    if [D.norm_empty(D.dump(g)) for g in o1] != [D.norm_empty(_exp(w)) for w in wo]:
+        return _fail(why="an expansion of another kind on the same peptide object afterwards is wrong", first=kind, then=other)
     return True
